@@ -24,7 +24,8 @@ ASSUMPTIONS = ["only option keys whose resolved value is a plain copy of the arg
                "legitimately rewrites from the network (numba, lightsim2grid, voltage_depend_loads, 'auto' values) "
                "are excluded", "defaults are read from runpp's signature at run time"]
 REACH_PROBES = ["passed_equals_default_with_conflicting_stored", "passed_differs_with_conflicting_stored",
-                "stored_applied_without_passed", "runpp_failed_with_stored_options", "options_after_save_load"]
+                "stored_applied_without_passed", "runpp_failed_with_stored_options", "options_after_save_load",
+                "runpp_via_run_control"]
 
 VALUES = {
     # (values close to, but different from, a float default are legal explicit arguments too)
@@ -86,7 +87,8 @@ def generate(rng, idx, tier):
             ol.append({"op": "set_opts", "overwrite": rng.random() < 0.25, "kw": _gen_kw(rng, 4, cfg["p_default"])})
         elif r < 0.85:
             kw = _gen_kw(rng, 4, cfg["p_default"])
-            op = {"op": "runpp", "kw": kw, "positional": rng.random() < 0.15}
+            # (run_control=True: runpp hands all of its parameters on to run_control, which calls runpp again)
+            op = {"op": "runpp", "kw": kw, "positional": rng.random() < 0.15, "run_control": rng.random() < 0.15}
             r2 = rng.random()
             if r2 < cfg["fault_rate"]:
                 op["fault"] = c08.gen_fault(rng, ["InjectedFault", "KeyboardInterrupt"])
@@ -108,7 +110,7 @@ def simplify_op(op):
             del o["kw"][k]
             out.append(o)
     if op.get("op") == "runpp":
-        for k in ("fault", "natural", "positional"):
+        for k in ("fault", "natural", "positional", "run_control"):
             if op.get(k):
                 o = copy.deepcopy(op)
                 o.pop(k)
@@ -206,6 +208,12 @@ def _exec_runpp(net, op, i, ctx, model, defaults):
             v = kwargs.pop(k) if k in kwargs else defaults[k]
             args.append(v)
             passed[k] = v       # a positionally passed default IS an explicitly passed value
+    if op.get("run_control"):
+        from pandapower.control import ConstControl
+        if not len(net.controller) and len(net.load):
+            ConstControl(net, "load", "p_mw", element_index=net.load.index[0])
+        kwargs["run_control"] = True
+        ctx.probe("runpp_via_run_control")
     call = lambda: pp.runpp(net, *args, **kwargs)
     fired = None
     if op.get("fault"):
